@@ -10,8 +10,10 @@ the RELATIONS with which C06/C07 decide world-line consistency and legality. Nam
   part 4  this file                          spin-only updates given as functions: `spinFlipStep_of_consistent`,
                                              `certifiedUpdate_*` (bridge → C06), `loopUpdate_is_step` (C04, closed
                                              walks), `presUpdate_is_spinFlipStep` (parametrised)
-          QmcProofs/RefinementClusterSide.lean  C09 → bridge (cannot be imported here: name clashes between
-                                             QmcModel/Cluster.lean and QmcModel/Worldline.lean)
+          QmcProofs/RefinementClusterSide.lean  C09 → bridge, parametrised over the update function (cannot be
+                                             imported here: name clashes between QmcModel/Cluster.lean and
+                                             QmcModel/Worldline.lean); QmcProofs/RefinementClusterExact.lean
+                                             instantiates it with the exact `clusterUpdate`
   examples: the 3-variable Ising configuration of C09 / KernelInvariance (`exB`, `exA`).
 -/
 import QmcProofs.RefinementSampler
@@ -365,6 +367,57 @@ example : (metropolisSweep spec3.ham (3 / 2) 5 exB (RS.ofScript [2 ^ 63, 2 ^ 62,
       = some (some (insertedOp spec3.ham [false, false, true] 1)) ∧
     (metropolisSweep spec3.ham (3 / 2) 5 exB (RS.ofScript [2 ^ 63, 2 ^ 62, 2 ^ 63])).2.clean = true := by
   decide +kernel
+
+/-! #### the hypotheses of part 1 are needed -/
+
+def Hneg : Ham := { nbonds := 1, vars := fun _ => [0], const := fun _ => false, w := fun _ _ _ => -1 }
+def Hzero : Ham := { nbonds := 3, vars := fun _ => [0], const := fun _ => false, w := fun _ _ _ => 0 }
+
+theorem ham1_wf (H : Ham) (hv : ∀ b, H.vars b = [0]) : HamWF H 1 := by
+  intro b _
+  rw [hv b]
+  exact ⟨by simp, by intro v hv; simp at hv; omega⟩
+
+/-- **`MetroSigns` is needed**: with `β = −1` and a diagonal weight `−1` the insertion test
+`β·Nb·w = 1 ≥ L − n = 1` passes (`gen_bool(1.0)`, no draw) and the sweep stores an operator of weight
+`−1`; that is not a `DiagSweepStep` (it would be legal by `diagSweep_pres`). -/
+theorem metroSigns_needed : ¬ MetroSigns Hneg (-1) ∧
+    ¬ DiagSweepStep Hneg 1 ⟨[false], [none]⟩
+      (metropolisSweep Hneg (-1) 1 ⟨[false], [none]⟩ (RS.ofScript [0])).1 := by
+  constructor
+  · rintro (h | h)
+    · norm_num at h
+    · have := h 0 (by decide) []
+      simp only [Hneg] at this
+      norm_num at this
+  · intro h
+    have hl := (diagSweep_pres_aux Hneg 1 1 (ham1_wf Hneg fun _ => rfl) _ _ rfl (by decide) (by decide)
+      (empty_consistent_legal Hneg [false] 1).2 h).2.1
+    have hmem : some (insertedOp Hneg [false] 0) ∈
+        (metropolisSweep Hneg (-1) 1 ⟨[false], [none]⟩ (RS.ofScript [0])).1.slots := by decide +kernel
+    have := (hl _ hmem).2.2.2.2.2
+    simp only [Hneg] at this
+    norm_num at this
+
+/-- **`TableOK` (entries ≥ 0) is needed**: with the table `[1, −1, 2]` (total 2 > 0) the cumulative
+search can return bond 1, whose entry is negative, and the rejection test `u·(−1) < w = 0` passes: an
+operator of weight 0 is stored. -/
+theorem tableOK_needed : ¬ TableOK Hzero [1, -1, 2] ∧
+    ¬ DiagSweepStep Hzero 1 ⟨[false], [none]⟩
+      (heatBathSweep Hzero [1, -1, 2] 1 1 ⟨[false], [none]⟩ (RS.ofScript [0, 2 ^ 63, 2 ^ 62])).1 := by
+  constructor
+  · intro h
+    have := h.2 (-1) (by simp)
+    norm_num at this
+  · intro h
+    have hl := (diagSweep_pres_aux Hzero 1 1 (ham1_wf Hzero fun _ => rfl) _ _ rfl (by decide) (by decide)
+      (empty_consistent_legal Hzero [false] 1).2 h).2.1
+    have hmem : some (insertedOp Hzero [false] 1) ∈
+        (heatBathSweep Hzero [1, -1, 2] 1 1 ⟨[false], [none]⟩ (RS.ofScript [0, 2 ^ 63, 2 ^ 62])).1.slots := by
+      decide +kernel
+    have := (hl _ hmem).2.2.2.2.2
+    simp only [Hzero] at this
+    exact absurd this (lt_irrefl _)
 
 /-- part 2: variable 2 carries no operator and is redrawn (word `2^63` = tails), 0 and 1 are kept -/
 example : (freeRefresh exB (RS.ofScript [2 ^ 63])).1.state = [false, false, false] ∧
